@@ -22,9 +22,9 @@ theorem fc17_sites_exact : NA.C17.taintedSites = NA.C17.fc17Sites := by decide
 (`.login/.config/.change/.cmp`), run log, history file, status file, stdout, stderr. -/
 theorem every_sink_kind_listed : NA.C17.kindsPresent = [1, 2, 3, 4, 5, 6] := by decide
 
-/-- Every failure kind of the source (a call whose error text embeds the request URL:
-`client.Get/Do/PostForm`, `http.NewRequest`, `url.Parse`) is mapped to a failure kind of the run
-model, and only the URL of the PAN-OS requests carries secrets. -/
+/-- Every failure kind of the source (an API whose error text embeds the request URL:
+`client.Get/Do/PostForm`, `http.NewRequest`, `url.Parse`) either has a URL without secrets — then it
+is harmless wherever the call stands — or is the PAN-OS `client.Get`. -/
 theorem all_error_sources_classified : NA.C17.unclassifiedSources = [] := by decide
 
 /-- **Flow model**: for every failure kind and every sink its error text reaches, the secrets of
@@ -35,7 +35,7 @@ theorem error_flows_redacted :
 
 /-- … and the raw flows are exactly one: the transport error of a PAN-OS request
 (`panos.httpGet: s.client.Get(uri)`) reaching `device.ApproveOrCompare: errlog.Abort("%v", err)`. -/
-theorem raw_flows_exact : NA.C17.rawFlows = [(31414, 89461454)] := by decide
+theorem raw_flows_exact : NA.C17.rawFlows = [(197749963, 3659553034)] := by decide
 
 /-! ## NSX and SSH runs derived from the regenerated steps
 
@@ -68,15 +68,12 @@ theorem panos_steps_independent (F : Nat → NA.Mask.LEnv → NA.Mask.Str) (env1
 sink step that depends on a secret is the F-C17 site. -/
 theorem common_steps_secret_only_at_fc17 : NA.Mask.secretSinks (stepsOf 4) = NA.C17.fc17Sites := by decide
 
-/-- The NSX login closure, step by step as regenerated: log, log, transmit (the form with the
-password), log — the form is logged BEFORE the password is put into it. -/
-theorem nsx_login_shape : shapeOf 1768297969 = [(0, []), (0, []), (1, [1]), (0, [])] := by decide
+/-- The derived NSX runs are not vacuous: the analysis does see the password (login form) and the
+session token (request header) being transmitted to the device. -/
+theorem nsx_secrets_are_transmitted : transmits 1 [1] = true ∧ transmits 1 [3] = true := by decide
 
-/-- `nsx.sendRequest`: the token is transmitted as a header (then the content type, then the request); no sink step. -/
-theorem nsx_request_shape : shapeOf 766251816 = [(1, [3]), (1, []), (1, [])] := by decide
-
-/-- `console.Conn.Send` transmits (possibly the password) and writes to no sink. -/
-theorem ssh_send_shape : shapeOf 3924003082 = [(1, [1])] := by decide
+/-- … and the SSH back ends transmit the password (`console.Conn.Send`). -/
+theorem ssh_password_is_transmitted : transmits 2 [1] = true := by decide
 
 /-- The lemma behind every class of the table (checked names). -/
 def coverLemma : Cover → Lean.Name
@@ -95,12 +92,12 @@ def coverLemma : Cover → Lean.Name
 def failureLemma : FailureKind → Lean.Name
   | .panosGet => ``keygen_independent           -- keygen: masked; later requests: ``sinks_independent_partial / F-C17
   | .panosAddrParse => ``keygen_independent
-  | .nsxLoginPost => ``nsx_sinks_independent
-  | .nsxRequest => ``nsx_sinks_independent
+  | .nsxLoginPost => ``nsx_steps_independent
+  | .nsxRequest => ``nsx_steps_independent
 
 def obligations : List Lean.Name := [``all_sink_sites_covered, ``fc17_sites_exact, ``every_sink_kind_listed,
   ``all_error_sources_classified, ``error_flows_redacted, ``raw_flows_exact,
   ``nsx_steps_independent, ``ssh_steps_independent, ``panos_steps_independent, ``common_steps_secret_only_at_fc17,
-  ``nsx_login_shape, ``nsx_request_shape, ``ssh_send_shape]
+  ``nsx_secrets_are_transmitted, ``ssh_password_is_transmitted]
 
 end NA.C17Sites
